@@ -535,7 +535,8 @@ impl PeekByte for Variant {
                 let bytes = i32_to_bytes(*i);
                 Ok(bytes[address])
             }
-            _ => todo!(),
+            // only INTEGER variables have an emulated byte view
+            _ => Err(RuntimeError::IllegalFunctionCall),
         }
     }
 }
@@ -566,7 +567,8 @@ impl PokeByte for Variant {
                 *i = bytes_to_i32(bytes);
                 Ok(())
             }
-            _ => todo!(),
+            // only INTEGER variables have an emulated byte view
+            _ => Err(RuntimeError::IllegalFunctionCall),
         }
     }
 }
